@@ -55,7 +55,10 @@ def run_harness(seed, rounds, permille, scale=1):
         raise RuntimeError("harness build failed: " + msg)
     r = common.run([exe, str(seed), str(rounds), str(permille), str(scale)], timeout=600)
     if r.returncode != 0:
-        return r.stdout or "", "rc=%s %s" % (r.returncode, (r.stderr or "")[-300:])
+        k = [l for l in (r.stdout or "").split("\n") if l.startswith("K ")]
+        why = "the library crashed with signal %s in round %s (DISPATCH_CLIENT_CRASH raises SIGILL)" % tuple(k[0].split()[1:3]) if k \
+            else "rc=%s %s" % (r.returncode, (r.stderr or "")[-300:])
+        return r.stdout or "", why
     return r.stdout, None
 
 
@@ -244,10 +247,10 @@ def judge_round(lay, rd, streams, label):
           "suspend_in_callout": 0, "max_count": 0}
     trans = [o for s in streams for o in s["obs"] if o.k in ("cas", "xor")]
     order, reached = chain(trans, rd["st0"])
-    if order is None or reached != rd["st1"]:
+    if order is None or (not rd.get("crashed") and reached != rd["st1"]):
         mism.append({"what": "%s: the successful dq_state transitions do not form one chain from the initial to the final word "
                              "(a state change escaped the recorder, or a recorded value is wrong)" % label,
-                     "detail": {"transitions": len(trans), "reached": reached, "final": rd["st1"]}})
+                     "detail": {"transitions": len(trans), "reached": reached, "final": rd.get("st1")}})
         return fails, mism, st
     st["transitions"] = len(order)
     pos = {id(e): k for k, e in enumerate(order)}
@@ -290,6 +293,8 @@ def judge_round(lay, rd, streams, label):
             st["activation_by_activate"] += 1
         if (e.a & NA) and not (e.a & IN) and not (e.b & NA):
             st["activation_by_resume"] += 1
+    if rd.get("crashed"):
+        return fails, mism, st
     if side != rd["side"] and not bad_side:
         mism.append({"what": "%s: the side counter is %d at the end of the round, the transfers on the chain sum to %d" % (label, rd["side"], side)})
     # marks
@@ -363,6 +368,22 @@ def correspond(ctx, tag="c06_slane"):
         if died:
             fails.append({"key": "stress-client-died", "what": "the stress client crashed or hung (%s): %s" % (run_label, died),
                           "seed": seed, "rounds": rounds, "permille": permille, "scale": scale})
+            # the recording made up to the crash is still replayed: it shows the first transition the model does not allow
+            try:
+                lay, rds, per = parse(text)
+                bl = [l.split() for l in text.split("\n") if l.startswith("B ")]
+                if bl and (not rds or int(bl[-1][1]) != rds[-1]["round"]):
+                    b = [int(x) for x in bl[-1][1:]]
+                    rdc = {"round": b[0], "addr": b[1], "inactive": b[2], "st0": b[3], "seq0": b[4], "seq1": 1 << 62, "wq_end": 4,
+                           "role": lay["ANON"], "crashed": True}
+                    streams, nn = normalise(lay, rdc, per)
+                    f2, m2, _ = judge_round(lay, rdc, streams, "%s round %d (crashed)" % (run_label, b[0]))
+                    mism += m2
+                    for s in streams:
+                        jobs.append((1, s["tid"] & 0x3fffffff, s["obs"]))
+                        jobinfo.append(("%s round %d (crashed)" % (run_label, b[0]), rdc, s, {"seed": seed}))
+            except Exception as e:      # noqa
+                notes.append("partial recording of the crashed run could not be parsed: %r" % (e,))
             continue
         lay, rds, per = parse(text)
         if len(rds) < rounds:
@@ -410,7 +431,7 @@ def correspond(ctx, tag="c06_slane"):
         res = []
     rejected = 0
     for (idx, idle), (label, rd, s, rp), (rb, tid, tr) in zip(res, jobinfo, jobs):
-        if idx >= 0 or not idle:
+        if idx >= 0 or (not idle and not rd.get("crashed")):
             rejected += 1
             if rejected <= 4:
                 lo = max(0, idx - 6)
